@@ -58,7 +58,7 @@ Fmt(f, own, obs) ==
 \* the write guard of format_file
 Writes(own, out) == out # own /\ (out.v \/ ~own.v)
 
-SortSeq(S) == SetToSortSeq(S, LAMBDA a, b : a < b)
+Sorted(S) == SetToSortSeq(S, LAMBDA a, b : a < b)
 
 VARIABLES
     passNo, phase,   \* phase: "select" | "run" | "done"
@@ -93,7 +93,7 @@ SelectPass ==
          THEN /\ phase' = "done"
               /\ UNCHANGED <<passNo, todo, queue, results, sched>>
          ELSE /\ phase' = "run" /\ passNo' = passNo + 1
-              /\ todo' = SortSeq(Selected(book)) /\ queue' = SortSeq(Selected(book))
+              /\ todo' = Sorted(Selected(book)) /\ queue' = Sorted(Selected(book))
               /\ results' = [f \in Files |-> "none"]
               /\ sched' = Append(sched, <<"pass", 0>>)
     /\ assign' = <<>> /\ order' = <<>>
@@ -123,7 +123,7 @@ Deps(w) ==
     /\ wk[w].st = "read"
     /\ LET f == wk[w].f
            obs == [g \in DepsOf[f] |-> ViewOf(disk[g])]
-       IN wk' = [wk EXCEPT ![w] = [@ EXCEPT !.st = "formatted", !.obs = obs, !.out = Fmt(f, @.own, obs)]]
+       IN wk' = [wk EXCEPT ![w] = [@ EXCEPT !.st = "formatted", !.obs = obs, !.out = Fmt(f, wk[w].own, obs)]]
     /\ sched' = Append(sched, <<"deps", w>>)
     /\ UNCHANGED <<passNo, phase, book, todo, queue, results, disk, hist, assign, order>>
 
@@ -185,7 +185,7 @@ SeqTasks(d, res, fs) ==
 RECURSIVE SeqPasses(_, _, _)
 SeqPasses(d, bk, p) ==
     IF p >= MaxPasses \/ Selected(bk) = {} THEN [disk |-> d, report |-> \E x \in Folders : bk[x].changes]
-    ELSE LET td == SortSeq(Selected(bk))
+    ELSE LET td == Sorted(Selected(bk))
              r == SeqTasks(d, [f \in Files |-> "none"], td)
          IN SeqPasses(r.disk, AccountBook(bk, td, r.res), p + 1)
 
